@@ -1,4 +1,5 @@
 from .data_container import DataContainer, CornerDataContainer
+from .mesh_attributes import ArrayAttribute
 from ..geometry import Vec
 from .. import utils
 from .. import config
@@ -164,7 +165,7 @@ class RawMeshData:
                 if is_valid(a,b):
                     new_edges.append(utils.keyify(a,b))
                     for name in new_attrs:
-                        if ie in old_attrs[name]: # keep sparsity of the attribute
+                        if isinstance(old_attrs[name], ArrayAttribute) or ie in old_attrs[name]._data: # a dense attribute holds a value for every edge; keep sparsity of a sparse one
                             new_attrs[name][n] = old_attrs[name][ie]
                     n+=1
             self.edges = new_edges
